@@ -68,7 +68,7 @@ type Ctx struct {
 
 const maxViolPerClass = 3
 const maxViolations = 60
-const maxDistinct = 4_000_000
+const maxDistinct = 1_000_000 // per worker; beyond it distinct cases are no longer recorded (the evidence count is then a lower bound)
 
 func NewCtx(prop, tier string, seed uint64, shard, nshards int) *Ctx {
 	c := &Ctx{Prop: prop, Tier: tier, Seed: seed, Shard: shard, NShards: nshards}
@@ -122,6 +122,8 @@ func (c *Ctx) SetAdd(set, elem string) {
 func (c *Ctx) Distinct(h uint64) {
 	if len(c.distinct) < maxDistinct {
 		c.distinct[h] = struct{}{}
+	} else {
+		c.res.Counters["distinct_hashes_not_recorded_beyond_cap"]++
 	}
 }
 
